@@ -4,7 +4,8 @@ import hashlib, json, os, shutil, signal, subprocess, sys, time
 
 VERIF = os.path.dirname(os.path.dirname(os.path.abspath(__file__)))
 REPO = os.environ.get("VERIF_REPO", "/repo")
-GO = "/root/go/pkg/mod/golang.org/toolchain@v0.0.1-go1.26.1.linux-amd64/bin/go"
+STOCK_GOROOT = "/root/go/pkg/mod/golang.org/toolchain@v0.0.1-go1.26.1.linux-amd64"
+STOCK_GO = STOCK_GOROOT + "/bin/go"
 BUILD_ROOT = os.path.join(VERIF, ".build")
 SHM = "/dev/shm"
 
@@ -93,7 +94,43 @@ def _digest_tree():
                 h.update(f.encode() + b"\0" + fh.read() + b"\0")
         except OSError:
             pass
+    h.update(SELECT_PATCH.encode())
     return h.hexdigest()[:20]
+
+
+SELECT_NEEDLE = "j := cheaprandn(uint32(norder + 1))"
+SELECT_PATCH = ("var j uint32; if s := VerifSelectSeed; s != 0 { x := s + uint64(norder)*0x9e3779b97f4a7c15 + uint64(len(scases)); "
+                "x ^= x >> 31; x *= 0xbf58476d1ce4e5b9; x ^= x >> 29; j = uint32(x % uint64(norder+1)) } else { j = cheaprandn(uint32(norder + 1)) }")
+
+
+def sim_go():
+    """The go command used for instrumented builds: a private copy of the repository's toolchain whose
+    runtime picks among several ready `select` cases from a seed published by the simulator
+    (runtime.VerifSelectSeed) instead of at random. (The toolchain lives in the module cache, where
+    `-overlay` refuses to replace files, hence a copy.) The shipped program is never built with it."""
+    root = os.path.join(BUILD_ROOT, "goroot-sim")
+    gobin = os.path.join(root, "bin", "go")
+    marker = os.path.join(root, ".verif-patched")
+    if os.path.exists(marker):
+        return gobin
+    os.makedirs(BUILD_ROOT, exist_ok=True)
+    tmp = root + ".tmp%d" % os.getpid()
+    shutil.rmtree(tmp, ignore_errors=True)
+    p = subprocess.run(["cp", "-a", STOCK_GOROOT, tmp], stdout=subprocess.PIPE, stderr=subprocess.STDOUT, text=True)
+    if p.returncode != 0:
+        raise Infra("cannot copy the Go toolchain: %s" % p.stdout[-1000:])
+    subprocess.run(["chmod", "-R", "u+w", tmp])
+    sel = os.path.join(tmp, "src", "runtime", "select.go")
+    src = open(sel).read()
+    if src.count(SELECT_NEEDLE) != 1:
+        raise Infra("runtime/select.go does not look as expected; cannot make select choices deterministic")
+    src = src.replace(SELECT_NEEDLE, SELECT_PATCH) + "\n// VerifSelectSeed, when non-zero, replaces the random poll order of select (deterministic simulation).\nvar VerifSelectSeed uint64\n"
+    with open(sel, "w") as f:
+        f.write(src)
+    open(os.path.join(tmp, ".verif-patched"), "w").close()
+    shutil.rmtree(root, ignore_errors=True)
+    os.rename(tmp, root)
+    return gobin
 
 
 def build(which=("simplz",), verbose=True):
@@ -105,10 +142,11 @@ def build(which=("simplz",), verbose=True):
     import fcntl
     fcntl.flock(lock, fcntl.LOCK_EX)
     try:
+        GO = sim_go()
         instr = os.path.join(BUILD_ROOT, "instr")
         srcs = [os.path.join(VERIF, "tools/instr/main.go")]
         if not os.path.exists(instr) or os.path.getmtime(instr) < max(os.path.getmtime(s) for s in srcs):
-            _run([GO, "build", "-o", instr, "."], cwd=os.path.join(VERIF, "tools/instr"), what="build instr")
+            _run([STOCK_GO, "build", "-o", instr, "."], cwd=os.path.join(VERIF, "tools/instr"), what="build instr")
         if not os.path.exists(os.path.join(out, "overlay.json")):
             _run([instr, "-repo", REPO, "-out", out, "-sim", os.path.join(VERIF, "sim"), "-go", GO], cwd=VERIF, what="instrument")
         for name in which:
@@ -141,6 +179,7 @@ def _run(cmd, cwd, what):
 
 
 def build_linchk():
+    GO = STOCK_GO
     out = os.path.join(BUILD_ROOT, "linchk")
     src = os.path.join(VERIF, "tools/linchk")
     if not os.path.exists(out) or os.path.getmtime(out) < os.path.getmtime(os.path.join(src, "main.go")):
